@@ -15,6 +15,7 @@ CLAIMED = {
             "calls a nondeterminism source directly; every range over a map (and every use of a slice that carries a "
             "map's keys in map order) in engine/inspection/migration code is order-insensitive by construction or "
             "listed with a confirmed reason; the named sorted renderers sort what they collect. Round 3: a listed comparator compares each listed field between the two elements. "
+            "Round 4: Clone does not write into the mapping it is handed (aliases, closure cells and callees followed). "
             "Does not decide "
             "byte-identical output as an observed fact nor determinism of dependencies.",
             "custom AST+types map-iteration order classifier, who-may-call over SSA call sites",
@@ -38,6 +39,7 @@ CLAIMED = {
             "Run.EvaluateTemplate* is tagged engine:evaluated; NewResultSpecs merges every category; every router field that is "
             "evaluated or can hold dependencies is passed on by its enumerators. Also: the extraction chain from tagged fields to recorded references hands over under loop bounds, type arms, nil tests, EngineField flags and Reference.Variable() only, without leaving a loop early. "
             "Round 3: a category's exit is validated against the node's exits (imported from C01 R10); SwitchRouter.Validate does not accept a laxer spelling of Case.Type than its consumers compare. "
+            "Round 4: a session is only resumed at a node that waits (imported from C10 R3). "
             "Does not relate inspection to actual executions.",
             "table agreement between sibling implementations (saves vs declares) via SSA provenance, struct-tag audit, control-dependence check",
             "DESIGN.md §4 C20"),
@@ -53,6 +55,7 @@ CLAIMED = {
             "len-k, min, negative-index normalisation, sort's contract, index parameters forwarded to their call sites) or is one of "
             "15 listed sites with its reason. Also: every method invoked on an interface value of type XValue (null is a nil XValue) is on a value produced non-nil or under a nil/IsNil guard (also through parameters of unexported helpers). "
             "Round 3: every XObject.Default() call is under hasDefault() of the same object (the object is its own no-default sentinel). "
+            "Round 4: no pointer that may be nil is converted to an interface (module-wide, reflection-tested consumers excepted). "
             "Does not decide termination inside libraries for guarded operands, numeric results, "
             "or the listed sites beyond the stated argument.",
             "guard-dominance (control-dependence) check on partial-call operands, arity-table vs index agreement, path typestate on the arity wrapper",
@@ -67,6 +70,7 @@ CLAIMED = {
             "registered action type, only keys that are json fields of that action's struct and every field it requires; template-path "
             "wildcards agree between producer and consumer. Also: a required action field with an enumerating validator is written as a constant or defaulted to one on the empty edge at every call site; a truncation guard measures the value it cuts with a bound not above the limit; every slice/map-of-struct-pointers member of a definition struct carries dive,required (null elements are rejected at load). "
             "Round 3: urnscheme is treated as an enumerating validator (constant, or under urns.IsValidScheme of the same value). "
+            "Round 4: C11 R4 imported (every template rewritten, result kept); digit range tests start at '0' (lint). "
             "Does not decide that migrated definitions load (whether a required text value without an enumerating validator can be empty is not decided), graph preservation, idempotence as a value-level fact, or equivalence of rewritten templates.",
             "registry/table agreement (AST constants), SSA shape check of migrate(), guard-dominance (control dependence) for nil/length/type tests, interprocedural nullable-map analysis",
             "DESIGN.md §4 C16"),
@@ -87,6 +91,7 @@ CLAIMED = {
             "equality facts) spends a step or switches to the parent run; the resume budget test dominates Apply and the loop, and "
             "countWaits' predicate accepts every wait event type; the size choke points (results, names, fields, template text on "
             "every returning path, quick replies, attachments). Also: the truncation of a field value's text depends only on the value being non-nil; constant and computed indexes in flows/engine and flows/runs are within range on every path (45 sites, 1 listed with a companion obligation on who writes run.path). "
+            "Round 4: wherever message content is put together, what is appended to MsgContent.QuickReplies is truncated to MaxQuickReplyLength. "
             "Does not decide termination inside actions' services or the "
             "library truncation functions.",
             "dominance/guard checks and counter-monotonicity on go/ssa, exhaustive path enumeration of one loop iteration, predicate-vs-table agreement, value provenance to truncation calls",
@@ -100,6 +105,7 @@ CLAIMED = {
             "table is evaluated exhaustively over resume type x timeout (total, every type accepted somewhere, no timeout resume "
             "without a timeout). Also: the resume limit fails the session (imported from C05 R3); every method invoked on a run's Flow() in engine and runs is under a nil test of the same expression or listed as execution-only. "
             "Round 3: the node PathLocation returns is dereferenced, directly or by a callee, only under a test of the accompanying error or of the node. "
+            "Round 4: the nil outcome of every Router()/Wait() test in tryToResume fails the session on every path; a tolerated error is not merged into a later returning error test. "
             "Does not compare session JSON before/after as an observed fact nor cover faults inside ReadSession.",
             "path enumeration with interprocedural root-sensitive write-effect summaries (go/ssa + CHA), guard dominance, finite-domain abstract interpretation of Accepts",
             "DESIGN.md §4 C10"),
@@ -113,6 +119,7 @@ CLAIMED = {
             "group is added and a non-matching one removed; both call sites report changes and skip the event only when both lists "
             "are empty. Also: the evaluator's tables the group queries run through are obligations here too (imported from C15 R1 R2). "
             "Does "
+            "Round 4: the values of the contact handed to the evaluator (C15 R3: presence guards, fields only for field properties) are imported too. "
             "not decide that the evaluator's answer is right (C15) nor asset loading.",
             "interprocedural dirty/clean dataflow over go/ssa with CHA dispatch and object-root sensitivity, guard dominance",
             "DESIGN.md §4 C06"),
@@ -125,6 +132,7 @@ CLAIMED = {
             "continues after an erroring test; an empty exit fails the run; the random index derives only from the draw and "
             "len(categories); Results.Save always stores. Also: the engine's choice of RouteTimeout traces through parameters and every call site only to a type test of the resume parameter or the constant false, never to session state; case arguments and category names use the documented language fallback (imported from C18 R1 R2). "
             "Round 3: the two calendar days a date test compares are taken in the same timezone; translated case arguments are used only when they are as many as the base arguments. "
+            "Round 4: a candidate that fails the comparison does not end the search loop; a parentless location lookup is decided by the emptiness of the text naming the level above. "
             "Does not decide what each test function matches.",
             "SSA value-provenance and guard-dominance checks on the router functions",
             "DESIGN.md §4 C07"),
@@ -136,6 +144,7 @@ CLAIMED = {
             "under the mutex with no reachable explicit unlock; package-level XObject/XArray values are constructed eagerly; "
             "localizable-text writers run only on a copy(). Also: an append to an uncopied slice of a shared object counts as a shared write; no pointer member of a JSON decode target aliases a package-level variable. "
             "Round 3: members of shared objects that can hold X values are assigned eagerly built values only; SetDeprecated is never applied to a value that may be a package-level variable (followed through callee returns). "
+            "Round 4: no package-level variable has a library type documented as unsafe for concurrent use. "
             "Does not observe races, and does not cover third-party packages or "
             "the host's asset source.",
             "type-closure of shared state + interprocedural root-sensitive write-effect summaries (go/ssa + CHA), lock-region dominance",
@@ -148,6 +157,7 @@ CLAIMED = {
             "events, modifiers, waits, hints; 69 struct types) the name a struct is registered under for reading is the type-name "
             "constant its constructors write. Also: event fields the reader requires get a guarded non-empty value; environments (envs) are covered like the other persisted types. "
             "Round 3: a pointer field the read side restores only under a presence test is dereferenced by the marshal side only under a nil test. "
+            "Round 4: the validate tag on an asset reference's UUID accepts whatever the asset's own definition accepts for that UUID type; the index obligations over the reader packages are imported from C05 R7. "
             "Does not decide that a restored session behaves "
             "identically (value-level), nor that re-derived values equal the live ones.",
             "marshal/read field-coverage and envelope symmetry (sibling-table agreement over go/ssa field accesses), dominance",
@@ -160,6 +170,7 @@ CLAIMED = {
             "urn attribute and the bare-number tel rewrite are guarded by a policy test; the positive direction keeps scheme, path and "
             "display. Also: session.MergedEnvironment builds its wrapper on every call (or every writer of session.env resets the cache), so the policy in force is the session's current one. "
             "Round 3: environment.Equal is sensitive to the redaction policy. "
+            "Round 4: every nameless return of Contact.Format is decided by the policy test and the redacting edge shows the id; no URN-tainted branch condition in anything the context methods of Contact/URNList/ContactURN reach (implicit flows). "
             "Does not decide non-interference for values that enter the context as plain data.",
             "intraprocedural API-aware taint analysis over go/ssa, guard (edge-dominance) checks",
             "DESIGN.md §4 C19"),
@@ -172,6 +183,7 @@ CLAIMED = {
             "uses three independent lookups and the text -> attachments -> quick replies language choice; send_msg locales derive "
             "from the language actually used. Also: an IVR message's locale is the language of the very lookup whose text is the message content. "
             "Round 3: a saved result always replaces the stored one (imported from C07 R5) and the merged environment is not a stale cache (imported from C19 R4). "
+            "Round 4: translated case arguments compared by count with the base arguments (imported from C07 R9); a translation lookup never depends on a test of its own base value. "
             "Does not enumerate the outcomes of all configurations.",
             "SSA shape/provenance checks of the fallback functions, struct-tag vs call-site table agreement",
             "DESIGN.md §4 C18"),
@@ -184,6 +196,7 @@ CLAIMED = {
             "attributes, URNs and 6 field types; over 63 (value type, property class, operator) cells the validator admits only what "
             "the dispatched comparison function handles without panicking; node switches are exhaustive; Simplify compares operators. "
             "Round 3: the Go types QueryValue can return are collected per field type by path enumeration (fall-through returns included); presence guards in QueryProperty test the field the value comes from. "
+            "Round 4: presence guards also in FieldValue.QueryValue; the contact's fields are consulted only for properties that are neither attributes nor URN schemes. "
             "Does not decide date parsing of query values, tokenisation, or the comparison primitives themselves.",
             "finite-domain abstract interpretation (path typestate engine with abstract transfer tables), sibling-table agreement",
             "DESIGN.md §4 C15"),
@@ -196,6 +209,7 @@ CLAIMED = {
             "parenthesises combinations; writer prefixes pair with reader arms; every type switch over QueryNode covers both node "
             "types and Simplify keeps every child, flattening only same-operator children. Also: the text ParseQuery hands to the lexer derives from its parameter through listed calls only (TrimSpace, the whole-text phone number rewrite). "
             "Round 3: every return of ContactQueryEscaping is strconv.Quote of its argument, and inside Evaluator.Template the escaping call depends only on escaping != nil, the token type and the error test. "
+            "Round 4: the string evaluator under R3 was made sound for unknown strings and joins of mixed element forms. "
             "Does not decide structural identity of re-parsed "
             "queries for all inputs.",
             "value provenance over go/ssa, regular-language (NFA->DFA) reasoning on the grammar's lexer rule, constant-pattern analysis, table agreement",
@@ -223,6 +237,7 @@ CLAIMED = {
             "scanner, keeps the original unless the transformer reports a change; ContextRefRename's changed flag is monotone and "
             "the rename guarded. Also: identifier text (Name, Lookup, Args) reaches the printed string only through formatting calls, the one listed normalisation (lower-casing a context reference) being backed by a who-may-write rule on Scope.get (XObject.Get and functions.Lookup, both shown to compare lower-cased names). "
             "Round 3: in the migrations refactor.Template is called unconditionally (no textual pre-filter before a case-insensitive rewrite). "
+            "Round 4: Visit descends into a field only by invoking Visit on it; the caller of refactor.Template returns the rewritten text on every path; no multi-character cutset in the rewriting packages (lint). "
             "Does not decide equality of evaluation results.",
             "sibling-table agreement across grammar text, AST doc tags and go/ssa provenance; shape checks of printers and refactor plumbing",
             "DESIGN.md §4 C11"),
@@ -235,6 +250,7 @@ CLAIMED = {
             "Excellent3 literal of the token it tested; no (value, error) call has its error discarded unless the callee never fails; "
             "hand-built text literals escape quote and backslash; body text is copied. Also: a migrated child expression is substituted whole, never sliced or textually edited. "
             "Round 3: outside init no function of the expressions package writes a package-level variable (stores, map updates, mutating sync methods). "
+            "Round 4: every functionReturnTypes entry agrees with the X type its excellent function returns (or names no function, or is listed). "
             "Does not decide that renamed functions compute "
             "the same values, nor argument order inside explicit-index templates.",
             "abstract interpretation of string-building code (templates with holes and path guards) + grammar/table agreement + guard evidence on dominating branches",
@@ -248,6 +264,7 @@ CLAIMED = {
             "value types with the matching X types and no gate narrower than the JSON number grammar; decimals marshal unquoted; every "
             "XValue has MarshalJSON; = and != are ToXText + string (in)equality. Also: any arithmetic on a parsed year is controlled by the length of the year text (true for 2 characters, false for 4). "
             "Round 3: an XDateTime method that converts its receiver with In() prints no component of the unconverted receiver; XText marshals through the JSON encoder. "
+            "Round 4: the day/month/year validity check in envs uses the year the date is built from. "
             "Does not decide the library arithmetic, DST folds, "
             "second-granular UTC offsets or non-am/pm locales.",
             "writer/reader table agreement by constant evaluation of the source's own patterns and layouts; regular-language inclusion; finite-domain evaluation of an SSA fragment; go/ssa provenance",
